@@ -14,16 +14,16 @@ import (
 // c10Edge is a child edge that records what the node forwards.
 type c10Edge struct{ msgs []edge.Message }
 
-func (e *c10Edge) Collect(m edge.Message) error               { e.msgs = append(e.msgs, m); return nil }
-func (e *c10Edge) Emit() (edge.Message, bool)                  { return nil, false }
-func (e *c10Edge) Close() error                                { return nil }
-func (e *c10Edge) Abort()                                      {}
-func (e *c10Edge) Type() pipeline.EdgeType                     { return pipeline.StreamEdge }
-func (e *c10Edge) Collected() int64                            { return int64(len(e.msgs)) }
-func (e *c10Edge) Emitted() int64                              { return 0 }
-func (e *c10Edge) CollectedVar() expvar.IntVar                 { return &expvar.Int{} }
-func (e *c10Edge) EmittedVar() expvar.IntVar                   { return &expvar.Int{} }
-func (e *c10Edge) ReadGroupStats(f func(*edge.GroupStats))     {}
+func (e *c10Edge) Collect(m edge.Message) error            { e.msgs = append(e.msgs, m); return nil }
+func (e *c10Edge) Emit() (edge.Message, bool)              { return nil, false }
+func (e *c10Edge) Close() error                            { return nil }
+func (e *c10Edge) Abort()                                  {}
+func (e *c10Edge) Type() pipeline.EdgeType                 { return pipeline.StreamEdge }
+func (e *c10Edge) Collected() int64                        { return int64(len(e.msgs)) }
+func (e *c10Edge) Emitted() int64                          { return 0 }
+func (e *c10Edge) CollectedVar() expvar.IntVar             { return &expvar.Int{} }
+func (e *c10Edge) EmittedVar() expvar.IntVar               { return &expvar.Int{} }
+func (e *c10Edge) ReadGroupStats(f func(*edge.GroupStats)) {}
 
 type c10Timer struct{}
 
